@@ -65,3 +65,22 @@ def tier_seed():
     tier = os.environ.get("VERIF_TIER", "quick")
     seed = int(os.environ.get("VERIF_SEED", "0") or 0)
     return tier, seed
+
+
+def lean_check(name, filename, timeout=1800):
+    """machine-check a lemma file under /verif/lemmas against the installed Mathlib (thorough tier);
+    accepted = exit status 0, no error, no sorry, and the file declares no axiom"""
+    import subprocess
+    from .. import VERIF
+    t0 = time.time()
+    path = os.path.join(VERIF, "lemmas", filename)
+    try:
+        src = open(path, encoding="utf-8").read()
+        holes = [w for w in ("sorry", "admit", "\naxiom ", "native_decide") if w in src]
+        p = subprocess.run(["lake", "env", "lean", path], cwd="/opt/veriftools/mathlib4", capture_output=True, text=True, timeout=timeout)
+        out = p.stdout + p.stderr
+        ok = p.returncode == 0 and "error" not in out.lower() and "sorry" not in out.lower() and not holes
+        note = (f"holes: {holes}; " if holes else "") + out[-300:]
+    except Exception as e:  # noqa: BLE001
+        ok, note = False, repr(e)
+    return driver.rec(name, "discharged" if ok else "open", "lean4+mathlib", time.time() - t0, kind="vacuity", fn=f"lemmas/{filename}", note=note)
